@@ -471,6 +471,25 @@ func run(c *core.Ctx) {
 	// and compiler-derived nonterminals, in both declaration orders, with coinciding and differing IDs.
 	explicitIDs(c, account)
 
+	// --- E: names whose identifier equals that of a predefined symbol (eoi, invalid_token; error in flex mode)
+	predefinedClashes(c)
+
+	// --- F: the identifiers inside generated Go code
+	{
+		var ts, ns []string
+		for _, d := range admitted {
+			if !d.base {
+				continue
+			}
+			if d.Kind == "term" {
+				ts = append(ts, d.Text)
+			} else {
+				ns = append(ns, d.Text)
+			}
+		}
+		generatedCode(c, ts, ns)
+	}
+
 	// --- C: pairs. Base set: unordered in quick, both orders in thorough. Extended set (thorough):
 	// unordered pairs with at least one member outside the base set.
 	n := len(admitted)
@@ -699,6 +718,58 @@ func explicitIDs(c *core.Ctx, account func(tag string, decls []decl, r result)) 
 	c.Set("explicit_id_cases", len(cases)+n)
 }
 
+// predefinedClashes declares, in every spelling class, symbols whose identifier equals the one of a
+// symbol the compiler defines itself: eoi -> EOI, invalid_token -> INVALID_TOKEN and, in flex mode,
+// error -> YYerror. Re-declaring eoi / invalid_token / error under their own names is legal and not
+// part of this section.
+func predefinedClashes(c *core.Ctx) {
+	type pcase struct{ tag, text string }
+	var cases []pcase
+	variants := func(words ...string) []string { // spellings of a multi-word name
+		up := strings.ToUpper(strings.Join(words, "_"))
+		lo := strings.ToLower(up)
+		var caps []string
+		for _, w := range words {
+			caps = append(caps, strings.ToUpper(w[:1])+strings.ToLower(w[1:]))
+		}
+		return []string{up, strings.Join(caps, "_"), strings.Join(caps, ""), strings.ReplaceAll(lo, "_", "-"), strings.ReplaceAll(up, "_", "-")}
+	}
+	spell := append(variants("eoi"), variants("invalid", "token")...)
+	spell = append(spell, "e-o-i", "e_o_i", "E_O_I", "eOI", "invalidToken", "INVALIDTOKEN", "i_n_v_a_l_i_d_t_o_k_e_n")
+	head := "language l(go);\n:: lexer\nzz: /z/\n"
+	for _, sp := range spell {
+		for _, t := range []string{sp, "'" + sp + "'", "\"" + sp + "\""} {
+			cases = append(cases, pcase{"predefined:term", head + t + ": /x/\n:: parser\ninput: zz " + t + ";\n"})
+		}
+		cases = append(cases, pcase{"predefined:explicit-id", head + "zp (" + sp + "): /x/\n:: parser\ninput: zz zp;\n"})
+		cases = append(cases, pcase{"predefined:nonterm", head + ":: parser\ninput: zz " + sp + ";\n" + sp + ": zz;\n"})
+		// compiler-derived nonterminals: template instance <sp>_T and mid-rule <sp>$1
+		cases = append(cases, pcase{"predefined:derived-nonterm", head + ":: parser\n%flag T;\ninput: zz " + sp + "<+T>;\n" + sp + "<T>: [T] zz | [!T] zz zz;\n"})
+	}
+	flex := "language l(cc);\nflexMode = true\n:: lexer\nzz:\n"
+	for _, sp := range []string{"YYerror", "yyerror", "YYERROR", "yYerror", "YY-error", "yy_error", "Yyerror", "YYError", "ERROR", "Error"} {
+		cases = append(cases, pcase{"predefined:flex:term", flex + sp + ":\n:: parser\ninput: zz " + sp + ";\n"})
+		cases = append(cases, pcase{"predefined:flex:explicit-id", flex + "zp (" + sp + "):\n:: parser\ninput: zz zp;\n"})
+		cases = append(cases, pcase{"predefined:flex:nonterm", flex + ":: parser\ninput: zz " + sp + ";\n" + sp + ": zz;\n"})
+	}
+	res := make([]result, len(cases))
+	core.ParallelFor(len(cases), 16, func(i int) {
+		var r result
+		r.key, r.msg, r.outcome = checkText(cases[i].text, nil)
+		res[i] = r
+	})
+	for i, pc := range cases {
+		c.Eval(1)
+		c.Outcome(pc.tag+":"+res[i].outcome, 1)
+		if res[i].outcome == "ok" || res[i].outcome == "error:same-id" {
+			c.Nontrivial(1)
+		}
+		if res[i].key != "" {
+			c.Violate(res[i].key+":predefined", res[i].msg, rcase{Mode: "text", Text: pc.text})
+		}
+	}
+}
+
 func replay(c *core.Ctx, raw json.RawMessage) error {
 	var r rcase
 	if err := json.Unmarshal(raw, &r); err != nil {
@@ -719,6 +790,10 @@ func replay(c *core.Ctx, raw json.RawMessage) error {
 	case "text":
 		if key, msg, _ := checkText(r.Text, nil); key != "" {
 			return fmt.Errorf("%s: %s", key, msg)
+		}
+	case "gen":
+		if res := checkGenerated(r.Text); res.key != "" {
+			return fmt.Errorf("%s: %s", res.key, res.what)
 		}
 	default:
 		return fmt.Errorf("unknown mode %q", r.Mode)
